@@ -2,6 +2,7 @@
 #include "rt.h"
 #include <algorithm>
 #include <errno.h>
+#include <fenv.h>
 #include <link.h>
 #include <locale.h>
 #include <langinfo.h>
@@ -985,14 +986,16 @@ char* xs_fcvt(double v, int n, int* d, int* sg) { virt_access(VL_CVTBUF, true, "
 char* xs_getenv(const char* n) { virt_access(VL_ENV, false, "getenv", RA0); return getenv(n); }
 int xs_setenv(const char* n, const char* v, int o) { virt_access(VL_ENV, true, "setenv", RA0); return setenv(n, v, o); }
 int xs_putenv(char* s) { virt_access(VL_ENV, true, "putenv", RA0); return putenv(s); }
+// process-wide (cwd) or per-thread (rounding mode) state: the call is carried out; whether a trace is LEFT is judged by
+// the monitors after the op (a library that switches and restores is fine), concurrency through the virtual location
 int xs_chdir(const char* p) {
   virt_access(VL_CWD, true, "chdir", RA0);
-  violation("global-state", t_task->cur_fn, "library changed the working directory to '%s'", p ? p : "(null)");
-  return 0;
+  logf("CHDIR %s", p ? p : "(null)");
+  return chdir(p);
 }
 int xs_fesetround(int m) {
-  violation("global-state", t_task->cur_fn, "library changed the floating-point rounding mode to %d", m);
-  return 0;
+  logf("FESETROUND %d", m);
+  return fesetround(m);
 }
 
 // ---- instrumentation callbacks (library code only)
